@@ -189,6 +189,8 @@ PROPS = {
                               'C03_horizontal_grouping_produces_nests',
                               'C03_generator_invents_no_instruction', 'C03_mode_table', 'C03_policy_configs_have_a_mode', 'C03_policy_activations_are_per_tensor',
                               'C03_generated_last_instruction_is_read_by_exactly_the_listed_operators',
+                              'C03_generated_last_instruction_is_read_by_exactly_the_listed_operators_skipping_no_quantize',
+                              'C03_no_quantize_instructions_are_inert',
                               'C03_unselected_op_untouched', 'C03_nonfloat_operand_never_quantized',
                               'C03_quantize_tensor_effect',
                               'C03_inserted_op_converts_between_neighbour_dtypes',
